@@ -19,6 +19,7 @@ THEOREMS = [
     "MoreExec.Zipper.C15_first_failure_cancelled",
     "MoreExec.Zipper.C15_success_step",
     "MoreExec.Zipper.C15_traverse_calls",
+    "MoreExec.Zipper.C15_source_facts",
 ]
 KERNELS = ["K6"]
 BUDGET = {"quick": 120, "thorough": 1200}
